@@ -11,6 +11,7 @@ import DlmsVerif.Run.Hdlc
 import DlmsVerif.Run.Rx
 import DlmsVerif.Run.Time
 import DlmsVerif.Run.Axdr
+import DlmsVerif.Run.Parsers
 
 structure DriverState where
   link : Run.Link.S := {}
@@ -20,6 +21,7 @@ def step (st : DriverState) (line : String) : DriverState × String :=
   match (line.trimAscii.toString.splitOn " ").filter (· ≠ "") with
   | "crc" :: rest => (st, Run.Crc.handle rest)
   | "fld" :: rest => (st, Run.Fields.handle rest)
+  | "pars" :: rest => (st, Run.Parsers.handle rest)
   | "axdr" :: rest => (st, Run.Axdr.handle rest)
   | "time" :: rest => (st, Run.Time.handle rest)
   | "hdlc" :: rest => (st, Run.Hdlc.handle rest)
